@@ -622,15 +622,24 @@ func (ex *Exec) backEdge(fr *Frame, li *loopInfo, from, header *ssa.BasicBlock, 
 			}
 		}
 	}
+	// at a back edge the current value of a loop-carried source variable is the
+	// value flowing into the header phi, whatever other phi of that name
+	// dominates the edge
+	edgeEnv := func() *Env {
+		env := ex.loopEnv(fr, st)
+		for phi := range saved {
+			if phi.Comment != "" {
+				env.vars[phi.Comment] = TV{fr.regs[phi], phi.Type()}
+			}
+		}
+		return env
+	}
 	savedPC := fr.blockPC
 	fr.blockPC = pc
-	for i, inv := range li.spec.Invariants {
-		env := ex.loopEnv(fr, st)
-		g := ex.evalBool(inv, env)
-		ex.oblige(fr, fmt.Sprintf("loop%d.preserve", li.ord), clauseName(inv, i), pc, g, from.Instrs[len(from.Instrs)-1].Pos())
-	}
+	// per-iteration postconditions first: once obliged they may be used by the
+	// preservation proofs of the invariants
 	for i, it := range li.spec.Iters {
-		env := ex.loopEnv(fr, st)
+		env := edgeEnv()
 		env.old = li.headSt
 		env.oldVars = map[string]TV{}
 		for phi, hv := range saved {
@@ -641,8 +650,13 @@ func (ex *Exec) backEdge(fr *Frame, li *loopInfo, from, header *ssa.BasicBlock, 
 		g := ex.evalBool(it, env)
 		ex.oblige(fr, fmt.Sprintf("loop%d.iter", li.ord), clauseName(it, i), pc, g, from.Instrs[len(from.Instrs)-1].Pos())
 	}
+	for i, inv := range li.spec.Invariants {
+		env := edgeEnv()
+		g := ex.evalBool(inv, env)
+		ex.oblige(fr, fmt.Sprintf("loop%d.preserve", li.ord), clauseName(inv, i), pc, g, from.Instrs[len(from.Instrs)-1].Pos())
+	}
 	if li.hasMeasure {
-		env := ex.loopEnv(fr, st)
+		env := edgeEnv()
 		m := ex.term(ex.eval(li.spec.Decreases.Expr, env).V, SInt)
 		ex.oblige(fr, fmt.Sprintf("loop%d.decreases", li.ord), "", pc,
 			And(app(SBool, "<", m, li.measure0), app(SBool, ">=", li.measure0, IntLit(0))), from.Instrs[len(from.Instrs)-1].Pos())
